@@ -313,7 +313,7 @@ def main(ck):
         finding('capsule-capsule-parallel', 'no contact, true distance %.17g < margin+gap %.17g' % (dtrue, M + G) + desc(),
                 info)
     # capsule-box with sizes/margins > ~1: known defect (length compared with squared lengths)
-    cb_big = lambda marg: pair == ('capsule', 'box') and marg + 2 * (a.size[0] + a.size[1] + float(np.sum(b.size[:3]))) > 1.0
+    cb_big = lambda marg: False     # (C28:capsulebox-distmax was repaired in /repo: no carve-out any more)
     if cb_big(M + G) and dtrue is not None and ((dtrue < M + G - tdist and ncon == 0)):
       labels.append('capsule-box-missing-contact(known finding)')
       if record:
